@@ -13,6 +13,7 @@ Nodes are plain tuples / lists so that an *edit* is (path, label, replacement) a
   ("dot", recv, field) ("struct", tname, [[field, e], ...]) ("if", c, block, block|None)
   ("match", scrut, [[("pat", variant, binder|None), block], ...]) ("lam", [[p, hint], ...], ret, block)
   ("block", [stmt, ...])   stmt = expr | ("let", name, hint|None, e) | ("assign", name, e) | ("for", var, iterable, block)
+                            | ("while", cond, block) | ("return", e|None)
   ("fun", name, [[p, hint], ...], ret, block)   ("prog", [fun, ...], [main expr, ...])
 
 Nothing here is random: every enumeration is a fixed-order product.
@@ -64,6 +65,10 @@ def src_stmt(s, ind):
         return f"{s[1]} = {src_expr(s[2], ind)}"
     if s[0] == "for":
         return f"for {s[1]} in {src_expr(s[2], ind)} {src_block(s[3], ind)}"
+    if s[0] == "while":
+        return f"while {src_expr(s[1], ind)} {src_block(s[2], ind)}"
+    if s[0] == "return":
+        return "return" + (" " + src_expr(s[1], ind) if s[1] is not None else "")
     return src_expr(s, ind)
 
 
@@ -159,7 +164,7 @@ HELPERS = {
                                                   block(("bin", "==", ("bin", "%", var("x"), lit("2", "Int")), lit("0", "Int"))))])),
 }
 
-BUILTIN_FUNS = {"string_repr": (["Any"], "String"), "not": (["Bool"], "Bool"), "max": (["Int", "Int"], "Int"),
+BUILTIN_FUNS = {"println": (["String"], "Unit"), "string_repr": (["Any"], "String"), "not": (["Bool"], "Bool"), "max": (["Int", "Int"], "Int"),
                 "Some": (["Int"], "Option<Int>"), "Custom": (["Int"], "Color")}
 
 METHODS = {  # (receiver type, name) -> (param types, return type) for the instantiations the grammar uses
@@ -194,7 +199,10 @@ def typeof(e, scope, sigs):
     if k == "bin":
         return "Int" if e[1] in ARITH else ("String" if e[1] == "^" else "Bool")
     if k == "call":
-        return sigs[e[1]][1] if e[1] in sigs else "?"
+        if e[1] in sigs:
+            return sigs[e[1]][1]
+        v = scope.get(e[1], "")
+        return v[4:] if v.startswith("Fun:") else "?"
     if k == "mcall":
         m = METHODS.get((typeof(e[1], scope, sigs), e[2]))
         return m[1] if m else "?"
@@ -221,14 +229,21 @@ def typeof(e, scope, sigs):
         t = "Unit"
         for s in e[1]:
             if s[0] == "let":
-                sc[s[1]] = typeof(s[3], sc, sigs)
+                sc[s[1]] = let_type(s[3], sc, sigs)
                 t = "Unit"
-            elif s[0] in ("assign", "for"):
+            elif s[0] in ("assign", "for", "while"):
                 t = "Unit"
+            elif s[0] == "return":
+                t = "NoValue"
             else:
                 t = typeof(s, sc, sigs)
         return t
     return "?"
+
+
+def let_type(e, scope, sigs):
+    """Type recorded for a let-bound name: a closure remembers its declared return type ("Fun:Int") so calls of it type."""
+    return "Fun:" + e[2] if e[0] == "lam" else typeof(e, scope, sigs)
 
 
 # ------------------------------------------------------------------ templates
@@ -274,6 +289,18 @@ def _mk_templates():
     t("let-int", I, [I, I], lambda s: [("let", "y", None, s[0]), ("bin", "+", var("y"), s[1])])
     t("let-ann-int", I, [I], lambda s: [("let", "y", "Int", s[0]), ("bin", "*", var("y"), lit("2", "Int"))])
     t("for-sum", I, [L, I], lambda s: [("let", "t", None, s[1]), ("for", "x", s[0], block(("assign", "t", ("bin", "+", var("t"), var("x"))))), var("t")])
+    # explicit early `return` in a named function: inside an if, a match arm, a for body, a while body; bare return in a Unit function
+    t("ret-if-int", I, [I, I], lambda s: [("if", ("bin", "<", s[0], lit("1", "Int")), block(("return", s[1])), None), ("bin", "+", s[0], lit("1", "Int"))])
+    t("ret-while-int", I, [I, I], lambda s: [("let", "t", None, s[0]),
+                                             ("while", ("bin", "<", var("t"), lit("9", "Int")),
+                                              block(("if", ("bin", ">", var("t"), lit("5", "Int")), block(("return", ("bin", "+", var("t"), s[1]))), None),
+                                                    ("assign", "t", ("bin", "+", var("t"), lit("1", "Int"))))),
+                                             lit("0", "Int")])
+    # ... and inside an annotated closure whose return type differs from the enclosing function's
+    t("clo-let-ret", I, [L, I], lambda s: [("let", "g", None, ("lam", [["x", "Int"]], "Bool",
+                                                               block(("if", ("bin", "<", var("x"), s[1]), block(("return", lit("False", "Bool"))), None),
+                                                                     lit("True", "Bool")))),
+                                           ("if", ("call", "g", [lit("1", "Int")]), block(("mcall", s[0], "len", [])), block(lit("0", "Int")))])
     t("call-inc", I, [I], lambda s: [("call", "inc", [s[0]])], "inc")
     t("call-unwrap", I, [O], lambda s: [("call", "unwrap", [s[0]])], "unwrap")
     t("call-code", I, [C], lambda s: [("call", "code", [s[0]])], "code")
@@ -289,6 +316,13 @@ def _mk_templates():
     t("match-opt-str", S, [O, S], lambda s: [("match", s[0], [[("pat", "Some", "v"), block(("call", "string_repr", [var("v")]))],
                                                               [("pat", "None", None), block(s[1])]])])
     t("let-ann-str", S, [S, S], lambda s: [("let", "y", "String", s[0]), ("bin", "^", var("y"), s[1])])
+    t("ret-match-str", S, [O, S], lambda s: [("let", "y", None, ("match", s[0], [[("pat", "Some", "v"), block(var("v"))],
+                                                                             [("pat", "None", None), block(("return", s[1]))]])),
+                                             ("call", "string_repr", [var("y")])])
+    t("clo-let-ret-str", S, [I, I], lambda s: [("let", "g", None, ("lam", [["x", "Int"]], "Int",
+                                                                   block(("if", ("bin", "<", var("x"), lit("1", "Int")), block(("return", s[1])), None),
+                                                                         ("bin", "+", var("x"), lit("1", "Int"))))),
+                                               ("call", "string_repr", [("call", "g", [s[0]])])])
     t("call-tag", S, [S, I], lambda s: [("call", "tag", [s[0], s[1]])], "tag")
     t("call-label_of", S, [P], lambda s: [("call", "label_of", [s[0]])], "label_of")
 
@@ -313,6 +347,12 @@ def _mk_templates():
     t("list.concat", L, [L, L], lambda s: [("mcall", s[0], "concat", [s[1]])])
     t("if-list", L, [B, L, L], lambda s: [("if", s[0], block(s[1]), block(s[2]))])
     t("let-list", L, [L, I], lambda s: [("let", "y", None, ("mcall", s[0], "append", [s[1]])), ("mcall", var("y"), "append", [lit("7", "Int")])])
+    t("clo-map-ret", L, [L, I], lambda s: [("mcall", s[0], "map", [("lam", [["x", "Int"]], "Int",
+                                                                   block(("if", ("bin", "<", var("x"), s[1]), block(("return", lit("0", "Int"))), None),
+                                                                         ("bin", "+", var("x"), lit("1", "Int"))))])])
+    t("clo-filter-ret", L, [L, I], lambda s: [("mcall", s[0], "filter", [("lam", [["x", "Int"]], "Bool",
+                                                                         block(("if", ("bin", "<", var("x"), s[1]), block(("return", lit("False", "Bool"))), None),
+                                                                               lit("True", "Bool")))])])
     t("call-evens", L, [L], lambda s: [("call", "evens", [s[0]])], "evens")
 
     t("some", O, [I], lambda s: [("call", "Some", [s[0]])])
@@ -323,6 +363,8 @@ def _mk_templates():
     t("match-opt-opt", O, [O, I], lambda s: [("match", s[0], [[("pat", "Some", "v"), block(("call", "Some", [("bin", "+", var("v"), s[1])]))],
                                                               [("pat", "None", None), block(lit("None", "Option<Int>"))]])])
     t("let-ann-opt", O, [O], lambda s: [("let", "y", "Option<Int>", s[0]), var("y")])
+    t("ret-for-opt", O, [L, I], lambda s: [("for", "x", s[0], block(("if", ("bin", ">", var("x"), s[1]), block(("return", ("call", "Some", [var("x")]))), None))),
+                                           lit("None", "Option<Int>")])
     t("call-find", O, [L, I], lambda s: [("call", "find", [s[0], s[1]])], "find")
 
     t("custom", C, [I], lambda s: [("call", "Custom", [s[0]])])
@@ -336,6 +378,7 @@ def _mk_templates():
     t("if-pt", P, [B, P, P], lambda s: [("if", s[0], block(s[1]), block(s[2]))])
     t("let-pt", P, [P], lambda s: [("let", "y", None, s[0]), ("struct", "Pt", [["x", ("dot", var("y"), "x")], ["label", ("dot", var("y"), "label")]])])
     t("call-mkpt", P, [I, S], lambda s: [("call", "mkpt", [s[0], s[1]])], "mkpt")
+    t("ret-bare-unit", "Unit", [I, S], lambda s: [("if", ("bin", "<", s[0], lit("1", "Int")), block(("return", None)), None), ("call", "println", [s[1]])])
     return T
 
 
@@ -500,7 +543,7 @@ def family(frm, to):
         return "unknown type name"
     if to == "unbound":
         return "unbound name"
-    if to in ("Fun", "Ctor"):
+    if to in ("Fun", "Ctor") or to.startswith("Fun:"):
         return "function"
     if to in ("Tuple", "NoValue"):
         return to
@@ -536,6 +579,7 @@ class Edits:
         self.out = []
         self.alts = EXPR_ALTS_SMALL if small else EXPR_ALTS
         self.compound = compound
+        self.owner = "function"     # what an explicit `return` returns from
         funs = prog[1]
         for fi, f in enumerate(funs):
             self.fun(f, (1, fi), body=(f[1] == "f"))
@@ -591,13 +635,24 @@ class Edits:
                 self.add(p + (1,), "let renamed (uses become unbound)", "zz")
                 r = f"let value ({'annotated' if hint else 'unannotated'})"
                 self.expr(e, p + (3,), sc, r, r)
-                sc[nm] = t
+                sc[nm] = let_type(e, sc, self.sigs)
             elif s[0] == "assign":
                 for nm in sorted(sc) + ["zz"]:
                     if nm != s[1]:
                         self.add(p + (1,), f"assignment target: {sc.get(s[1], '?')}→{family(sc.get(s[1], '?'), sc.get(nm, 'unbound'))}", nm,
                                  f"assignment target {s[1]}→{nm}")
                 self.expr(s[2], p + (2,), sc, "assigned value", "assigned value")
+            elif s[0] == "while":
+                self.expr(s[1], p + (1,), sc, "while condition", "while condition")
+                self.block(s[2], p + (2,), sc, "loop body")
+            elif s[0] == "return":
+                if s[1] is None:
+                    for a in self.alts:
+                        self.add(p + (1,), f"bare return in {self.owner} given a value: Unit→{family('Unit', a[2])}", a, f"bare return in {self.owner} given the value {a[1]}")
+                else:
+                    self.add(p + (1,), f"early return in {self.owner}: value dropped", None)
+                    r = f"early return value in {self.owner}"
+                    self.expr(s[1], p + (1,), sc, r, r + f" ({kind})")
             elif s[0] == "for":
                 self.add(p + (1,), "loop variable renamed (uses become unbound)", "zz")
                 self.expr(s[2], p + (2,), sc, "for-loop iterable", "for-loop iterable")
@@ -627,7 +682,7 @@ class Edits:
             self.expr(e[2], path + (2,), scope, f"operand of {oc} operator", f"left operand of {e[1]}")
             self.expr(e[3], path + (3,), scope, f"operand of {oc} operator", f"right operand of {e[1]}")
         elif k == "call":
-            ck = self.callee_kind(e[1])
+            ck = "closure variable" if scope.get(e[1], "").startswith("Fun:") else self.callee_kind(e[1])
             names = ["f", "nosuch", "Some", "Custom", "not", "max", "string_repr"] + sorted(scope)[:1]
             for nm in names:
                 if nm != e[1]:
@@ -712,7 +767,9 @@ class Edits:
             sc = dict(scope)
             for pn, ph in params:
                 sc[pn] = ph
+            outer, self.owner = self.owner, "closure"
             self.block(e[3], path + (3,), sc, "closure body")
+            self.owner = outer
 
 
 def slot_role(prog, path):
